@@ -128,7 +128,11 @@ impl MaidChunk {
 
     /// Get all FileDataIDs for root ADT files
     pub fn get_root_adt_ids(&self) -> &Vec<Vec<u32>> {
-        &self.sections[MaidSection::RootAdt.index()]
+        // A chunk read from a file may carry no section at all
+        static EMPTY: Vec<Vec<u32>> = Vec::new();
+        self.sections
+            .get(MaidSection::RootAdt.index())
+            .unwrap_or(&EMPTY)
     }
 
     /// Check if a tile has any files
@@ -141,7 +145,7 @@ impl MaidChunk {
 
     /// Count tiles with ADT data
     pub fn count_existing_tiles(&self) -> usize {
-        self.sections[MaidSection::RootAdt.index()]
+        self.get_root_adt_ids()
             .iter()
             .flat_map(|row| row.iter())
             .filter(|&&id| id != 0)
